@@ -621,6 +621,56 @@ def r1m_stateless_dispatch(ctx, rule='R1m'):
                % (mod.name, len(containers), len(written)))
 
 
+def r1c_chain_complete(ctx, rule='R1c'):
+    """Every link given to Flow(...) reaches the dispatch: the constructor stores the argument tuple as it is (or a plain copy), and
+    the pass that folds the chain around its checkpoints hands every link on.  A link that is dropped on the way (a falsy one, say:
+    an empty list is a valid source of a resource without rows) is a step that lazy evaluation skips and step-by-step evaluation
+    performs."""
+    run, repo = ctx.run, ctx.repo
+    run.rule(rule, 'CHAIN-COMPLETE: Flow.__init__ keeps all its links (the vararg itself, tuple(..) / list(..) of it); the '
+                   'checkpoint fold appends every link or hands the links so far to the checkpoint; nothing is filtered')
+    fl = repo.cls('dataflows.base.flow:Flow')
+    ini = fl.methods.get('__init__')
+    if ini is None or ini.node.args.vararg is None:
+        raise AnalysisError('Flow.__init__(*links) not found')
+    va = ini.node.args.vararg.arg
+    inn = ctx.N(ini)
+    stores = [a for a in ast.walk(inn.node) if isinstance(a, ast.Assign) and any(pseudo(t) == 'self.chain' for t in a.targets)]
+    if len(stores) != 1:
+        raise AnalysisError('Flow.__init__: the one store into self.chain was not found')
+    from rules.stream import subst_once
+    v = subst_once(inn.node, stores[0].value)
+    plain = pseudo(v) == va or (isinstance(v, ast.Call) and isinstance(v.func, ast.Name) and v.func.id in ('tuple', 'list')
+                                and len(v.args) == 1 and not v.keywords and pseudo(v.args[0]) == va) or \
+        (isinstance(v, (ast.List, ast.Tuple)) and len(v.elts) == 1 and isinstance(v.elts[0], ast.Starred) and pseudo(v.elts[0].value) == va)
+    run.check(plain, rule, where(repo, stores[0]), ini.qualname, 'self.chain = <all links>',
+              'the links a Flow was given are filtered or transformed before they are stored (%s): a link that is dropped - an empty '
+              'list is a valid source of a resource without rows - is performed by step-by-step evaluation and skipped by the chain'
+              % u(stores[0].value))
+    pp = fl.methods.get('_preprocess_chain')
+    if pp is None:
+        raise AnalysisError('Flow._preprocess_chain not found')
+    ppn = ctx.N(pp)
+    loops = [l for l in own_nodes(ppn.node) if isinstance(l, ast.For) and 'self.chain' in u(subst_once(ppn.node, l.iter))
+             and isinstance(l.target, ast.Name)]
+    if len(loops) != 1:
+        raise AnalysisError('Flow._preprocess_chain: the loop over self.chain was not found')
+    lp = loops[0]
+    link = lp.target.id
+    ok = True
+    n = 0
+    for p in Enumerator(where=pp.qualname).body_paths(lp):
+        n += 1
+        nodes = [x for x in path_nodes(p)]
+        kept = any(isinstance(c, ast.Call) and isinstance(c.func, ast.Attribute) and c.func.attr == 'append' and c.args
+                   and pseudo(c.args[0]) == link for c in nodes)
+        handed = any(isinstance(c, ast.Call) and isinstance(c.func, ast.Attribute) and c.func.attr == 'handle_flow_checkpoint'
+                     and pseudo(c.func.value) == link for c in nodes)
+        ok = ok and (kept or handed) and p.term in (FALL, CONTINUE)
+    run.check(ok and n >= 2, rule, where(repo, lp), pp.qualname, 'every link is appended or folds the links before it',
+              'a link is dropped while the chain is folded around its checkpoints')
+
+
 def r1a_arity(ctx, rule='R1a'):
     """A user callable is taken for a row / rows / package step only if it has exactly one parameter: with more, the framework
     cannot call it (the wrappers pass one argument), and the failure would surface only when the first row arrives - not at all on
